@@ -12,6 +12,8 @@ pub enum ErrKind {
     Num,
     Ref,
     Value,
+    /// 0x2B, only expressible in the binary formats (BIFF8 / BIFF12)
+    GettingData,
 }
 
 pub const ALL_ERRS: [ErrKind; 7] = [
@@ -34,6 +36,7 @@ impl ErrKind {
             ErrKind::Num => "#NUM!",
             ErrKind::Ref => "#REF!",
             ErrKind::Value => "#VALUE!",
+            ErrKind::GettingData => "#GETTING_DATA",
         }
     }
     /// BIFF / XLSB error code
@@ -46,6 +49,7 @@ impl ErrKind {
             ErrKind::Name => 0x1D,
             ErrKind::Num => 0x24,
             ErrKind::NA => 0x2A,
+            ErrKind::GettingData => 0x2B,
         }
     }
     pub fn data(self) -> Data {
@@ -57,6 +61,7 @@ impl ErrKind {
             ErrKind::Num => CellErrorType::Num,
             ErrKind::Ref => CellErrorType::Ref,
             ErrKind::Value => CellErrorType::Value,
+            ErrKind::GettingData => CellErrorType::GettingData,
         })
     }
 }
